@@ -537,7 +537,6 @@ func genNumberForm(i int, rng *rand.Rand) []byte {
 	}
 }
 
-
 // genSemantic builds programs that are syntactically fine but rejected by the resolver
 // (scalar/array conflicts through every syntactic form that names an array or a scalar,
 // special variables and function names misused, undefined functions, too many arguments), so
